@@ -79,6 +79,16 @@ pub fn child_summary(run: &Run, id: &str, tier: Tier) -> Option<Value> {
     }
 }
 
+fn note_skipped(run: &Run) {
+    let mut sk = api::SKIPPED.lock().unwrap().clone();
+    sk.sort();
+    sk.dedup();
+    if !sk.is_empty() {
+        eprintln!("[{}] NOTE: {} alphabet member(s) could not be constructed as specified and were skipped (another property's operations misbehave): {}", run.prop, sk.len(), mccore::truncate(&sk.join("; "), 300));
+    }
+    run.note("alphabet_members_skipped", serde_json::json!(sk));
+}
+
 fn model_selftest(full: bool) {
     let res = refmodel::self_test(full);
     let bad: Vec<_> = res.iter().filter(|(_, ok)| !ok).collect();
@@ -211,10 +221,12 @@ fn main() {
             if child {
                 // the parent merges this summary; nothing else may go to stdout
                 runf(&run);
+                note_skipped(&run);
                 println!("{}", run.summary_json());
                 std::process::exit(0);
             }
             runf(&run);
+            note_skipped(&run);
             std::process::exit(run.finish(&meta));
         }
     }
